@@ -6,7 +6,7 @@
 // The package imports no cgo-dependent code and is built with CGO_ENABLED=0, so that the static
 // test binary can chroot into the sandbox of each case: a hostile path that does escape the
 // designated directory still cannot leave the sandbox. Without chroot permission the cases run
-// unjailed, 128 directories deeper, and the evidence says so (jail_active).
+// unjailed, 96 directories deeper, and the evidence says so (jail_active).
 package jailfam
 
 import (
@@ -107,7 +107,7 @@ var (
 	rootDir    *os.File // the real root, opened before the first chroot
 	jailTried  bool
 	jailWorks  bool
-	unjailedFn = 128 // extra nesting when there is no jail (see climbBound)
+	unjailedFn = 96 // extra nesting when there is no jail (see climbBound)
 )
 
 // enterJail chroots into dir. It returns false when chroot is not permitted.
@@ -461,13 +461,18 @@ func genImgCase(t *rapid.T) imgCase {
 	}
 	nl := rapid.IntRange(1, 3).Draw(t, "layers")
 	c.Layers = make([][]tarEntry, nl)
-	n := rapid.IntRange(1, 7).Draw(t, "entries")
 	// the shared-link-target shape: in two of five cases one group of links that carry the same
 	// relative target string at different depths, placed before, between or after the other entries
+	// (of which there are then at most five: see climbBound)
 	shared := ""
 	groupAt := -1
+	maxEntries := 7
 	if rapid.IntRange(0, 4).Draw(t, "shared_group") < 2 {
 		shared = rapid.SampledFrom(sharedTargetPool).Draw(t, "shared_target")
+		maxEntries = 5
+	}
+	n := rapid.IntRange(1, maxEntries).Draw(t, "entries")
+	if shared != "" {
 		groupAt = rapid.IntRange(0, n).Draw(t, "shared_group_at")
 	}
 	for i := 0; i <= n; i++ {
@@ -514,6 +519,9 @@ func genImgCase(t *rapid.T) imgCase {
 				}
 			}
 		}
+	}
+	if b := climbBound(c); b >= unjailedFn {
+		panic(fmt.Sprintf("harness: generated case exceeds the climb bound: %d", b))
 	}
 	return c
 }
@@ -814,8 +822,10 @@ func sharedTargetClasses(c imgCase) []string {
 // operation of a loader can reach with the entries of c, however it follows the links it has
 // created itself: a link is created at most (".." segments of its name) above the highest level
 // reachable before it and reaches at most (".." segments of its target) above that; the entry
-// finally written adds the ".." segments of its own name. The generator stays below
-// 7*12 + 4*3 + 4 = 100 < unjailedFn + len(nest).
+// finally written adds the ".." segments of its own name. The generator stays at or below
+// 7*12 + 4 = 88 without a shared-target group (an iteration adds at most one link with 4+4 or a
+// link with 0+4 and a link written through it with 4+4) and 5*12 + 4*3 + 4 = 76 with one; the
+// target lies unjailedFn + len(nest) + 1 = 103 levels below the sandbox directory.
 func climbBound(c imgCase) int {
 	dd := func(s string) int {
 		n := 0
@@ -893,7 +903,7 @@ func propImage(c imgCase) (o ev.Outcome, err error) {
 			col.SetExtra("jail_active", false)
 			col.Note("chroot not available: image cases run unjailed, %d directories below the sandbox root", unjailedFn+len(nest))
 		}
-		if b := climbBound(c); b >= unjailedFn+len(nest) {
+		if b := climbBound(c); b >= unjailedFn {
 			return o, fmt.Errorf("harness: refusing to run a case unjailed whose links could climb %d levels (sandbox depth %d)", b, unjailedFn+len(nest))
 		}
 		for i := 0; i < unjailedFn; i++ {
